@@ -79,32 +79,10 @@ let pr_result pr = function
   | Ok v -> Buffer.add_string buf "0 "; pr v
   | Err e -> Buffer.add_string buf "1 "; pr_int (err_code e)
 
-(* ---------- dispatch ---------- *)
+(* ---------- dispatch table: entries are registered by ocaml/entries/*.ml ---------- *)
+let table : (string, unit -> unit) Hashtbl.t = Hashtbl.create 64
+let reg (name : string) (f : unit -> unit) = Hashtbl.replace table name f
 let dispatch (name : string) : unit =
-  match name with
-  (* C19 *)
-  | "c19.convert_file" -> let t = rd_str () in pr_result pr_str (convert_file t)
-  | "c19.is_valid" -> let t = rd_str () in pr_result pr_bool (is_valid t)
-  | "c19.convert_line" ->
-      let l = rd_str () in let i = rd_nat () in let n = rd_nat () in pr_str (convert_line l i n)
-  | "c19.parse_header" -> let h = rd_str () in pr_result (pr_pair pr_nat pr_nat) (parse_header h)
-  | _ -> raise (Bad ("entry " ^ name))
-
-let () =
-  let out = stdout in
-  (try
-    while true do
-      let line = input_line stdin in
-      let parts = String.split_on_char ' ' line |> List.filter (fun s -> s <> "") in
-      (match parts with
-       | [] -> output_string out "\n"
-       | name :: rest ->
-         toks := Array.of_list rest; pos := 0;
-         Buffer.clear buf;
-         (try dispatch name with
-          | Bad m -> Buffer.clear buf; Buffer.add_string buf ("BAD " ^ m)
-          | Stack_overflow -> Buffer.clear buf; Buffer.add_string buf "BAD stack_overflow");
-         output_string out (Buffer.contents buf); output_char out '\n')
-    done
-  with End_of_file -> ());
-  flush out
+  match Hashtbl.find_opt table name with
+  | Some f -> f ()
+  | None -> raise (Bad ("entry " ^ name))
